@@ -181,6 +181,10 @@ __wrap_socket(int domain, int type, int protocol)
 	wh.nsocket++;
 	if ((fd = open("/dev/null", O_RDWR)) == -1)
 		return (-1);
+	if (wh.nsocket == 1)
+		wh.fd_a = fd;
+	else if (wh.nsocket == 2)
+		wh.fd_b = fd;
 	stale_errno();
 	return (fd);
 }
@@ -243,6 +247,17 @@ recv_ready(void)
 	return (wh.ending != 's');
 }
 
+/* The second connection's response is on its way (released, not yet read to its end). */
+static int
+b_arriving(void)
+{
+
+	if (!wh.has_b || wh.b_done || wh.b_eof)
+		return (0);
+	return (wh.a_datasegs >= wh.b_after || wh.a_done ||
+	    (wh.pos >= wh.streamlen && wh.seg_left == 0 && wh.seg_i >= wh.nsegs));
+}
+
 int
 __wrap_poll(struct pollfd * fds, nfds_t nfds, int timeout)
 {
@@ -260,7 +275,10 @@ __wrap_poll(struct pollfd * fds, nfds_t nfds, int timeout)
 		fds[i].revents = 0;
 		if (fds[i].events & POLLOUT)
 			fds[i].revents |= POLLOUT;
-		else if ((fds[i].events & POLLIN) && !wantout && recv_ready())
+		else if (wh.has_b && fds[i].fd == wh.fd_b) {
+			if ((fds[i].events & POLLIN) && !wantout && b_arriving())
+				fds[i].revents |= POLLIN;
+		} else if ((fds[i].events & POLLIN) && !wantout && !b_arriving() && recv_ready())
 			fds[i].revents |= POLLIN;
 		if (fds[i].revents)
 			n++;
@@ -276,8 +294,20 @@ __wrap_recv(int s, void * buf, size_t len, int flags)
 {
 	size_t n;
 
-	(void)s; (void)flags;
+	(void)flags;
 	wh.nrecv++;
+	if (wh.has_b && s == wh.fd_b) {
+		n = wh.bstreamlen - wh.bpos;
+		if (n == 0)
+			wh.b_eof = 1;
+		if (n > len)
+			n = len;
+		if (n > 0)
+			memcpy(buf, wh.bstream + wh.bpos, n);
+		wh.bpos += n;
+		stale_errno();
+		return ((ssize_t)n);
+	}
 
 	/* Start the next segment if the current one is used up. */
 	while (wh.seg_left == 0) {
@@ -319,6 +349,8 @@ __wrap_recv(int s, void * buf, size_t len, int flags)
 		memcpy(buf, wh.stream + wh.pos, n);
 	wh.pos += n;
 	wh.seg_left -= n;
+	if (n > 0)
+		wh.a_datasegs++;
 	stale_errno();
 	return ((ssize_t)n);
 }
@@ -328,7 +360,7 @@ __wrap_send(int s, const void * buf, size_t len, int flags)
 {
 	size_t n = len;
 
-	(void)s; (void)flags;
+	(void)flags;
 	wh.nsend++;
 	if ((wh.sendfail_at != 0) && (wh.nsend == wh.sendfail_at)) {
 		errno = EPIPE;
@@ -336,6 +368,17 @@ __wrap_send(int s, const void * buf, size_t len, int flags)
 	}
 	if ((wh.sendchunk != 0) && (n > wh.sendchunk))
 		n = wh.sendchunk;
+	if (wh.has_b && s == wh.fd_b) {
+		if (wh.bsentlen + n > wh.bsentcap) {
+			wh.bsentcap = (wh.bsentlen + n) * 2 + 64;
+			if ((wh.bsent = __real_realloc(wh.bsent, wh.bsentcap)) == NULL)
+				abort();
+		}
+		memcpy(wh.bsent + wh.bsentlen, buf, n);
+		wh.bsentlen += n;
+		stale_errno();
+		return ((ssize_t)n);
+	}
 	if (wh.sentlen + n > wh.sentcap) {
 		size_t ncap = (wh.sentlen + n) * 2 + 64;
 		uint8_t * nb = __real_realloc(wh.sent, ncap);
